@@ -68,3 +68,22 @@ Proof.
     fold ls ld in Hnt. rewrite El in Hnt. eapply nt_prefix; exact Hnt. }
   split; [apply G1; assumption|exact Hs].
 Qed.
+
+Theorem kill_states_touched_unconditional cfg S D a ans bits ex ft :
+  unique_keys S -> wf_fs S -> unique_keys D -> wf_fs D ->
+  let ls := list_fs now_far (excl_incl ex) normalize_unix S in
+  let ld := list_fs now_far (excl_incl ex) normalize_unix D in
+  let steps := snd (sync_plan now_far normalize_unix chunk_real cfg S (world D a []) ans bits ls ld) in
+  let T := Touched (cf_fl cfg) S D (cmd_of_plan steps) (file_of_plan steps) in
+  (forall s, In s (sync_kill_states now_far normalize_unix chunk_real cfg S (world D a []) ans bits ls ld ft) -> T s) /\
+  T (r_dest (run_top cfg S D a ans bits ex ft)).
+Proof.
+  intros HuS HwS HuD HwD ls ld steps T.
+  pose proof (run_top_never_through cfg S D a ans bits ex ft HuS HwS HuD HwD) as Hnt.
+  destruct (only_planned_changes now_far normalize_unix chunk_real chunk_real_ok cfg S (world D a []) ans bits ls ld ft eq_refl) as [G1 G2].
+  split; [|apply G2; exact Hnt].
+  intros s Hin. apply G1; [exact Hin|].
+  unfold sync_kill_states in Hin. destruct (steps_states_before_final (cf_fl cfg) ft _ _ _ Hin) as (l & El).
+  unfold run_top in Hnt. rewrite (sync_one_runs_plan now_far normalize_unix chunk_real) in Hnt.
+  fold ls ld in Hnt. rewrite El in Hnt. eapply nt_prefix; exact Hnt.
+Qed.
